@@ -387,6 +387,33 @@ fn replay_case(line: &Value, hs: &[PathPolicyHop], hopdom: &[PathPolicyHop], wle
                 }
             }
         }
+        "hops" => {
+            // hop extraction from path metadata: PathPolicyHop::hops_from_path
+            let ifs: Vec<PathInterface> = line["ifs"].as_array().map(|a| a.iter().map(|i| PathInterface {
+                isd_asn: IsdAsn::new(Isd(i["ia"]["isd"].as_u64().unwrap_or(0) as u16), Asn(i["ia"]["as"].as_u64().unwrap_or(0))),
+                id: i["id"].as_u64().unwrap_or(0) as u16,
+            }).collect()).unwrap_or_default();
+            let spec_ok = line["ok"].as_bool().unwrap_or(false);
+            let spec_hops: Vec<PathPolicyHop> = line["hops"].as_array().map(|a| a.iter().map(hop_from).collect()).unwrap_or_default();
+            let src = ifs.first().map(|i| i.isd_asn).unwrap_or(IsdAsn(0));
+            let dst = ifs.last().map(|i| i.isd_asn).unwrap_or(IsdAsn(0));
+            let path = ScionPath::new(src, dst, ScionDpPathView::Empty, Some(PathMetadata::new_minimal(0, 0, ifs)), None);
+            m.evals += 1;
+            let ctx = json!({"ifs": line["ifs"], "spec": {"ok": spec_ok, "hops": line["hops"]}});
+            match vh_core::catch(|| PathPolicyHop::hops_from_path(&path)) {
+                Err(msg) => m.pv("Panic:hops".into(), format!("hops_from_path panics: {msg}"), ctx),
+                Ok(Ok(h)) if spec_ok => {
+                    if h != spec_hops {
+                        m.pv("Hops:extraction".into(), format!("hops_from_path yields {:?}, the interface list denotes {}", h.iter().map(hop_json).collect::<Vec<_>>(), line["hops"]), ctx);
+                    } else {
+                        bump("hops_extracted", 1);
+                    }
+                }
+                Ok(Err(e)) if spec_ok => m.pv("Hops:extraction".into(), format!("hops_from_path rejects a well-formed interface list: {e}"), ctx),
+                Ok(Ok(_)) => bump("hops_malformed_accepted", 1), // no hops denoted; not a property violation
+                Ok(Err(_)) => bump("hops_malformed_rejected", 1),
+            }
+        }
         "acl" => {
             let a = acl_from(&line["acl"]);
             let ws = w_list(hs, wlen);
